@@ -33,7 +33,7 @@ void resolve(cocls::promise<vs::Counted> &p, int rk) {
 }
 
 void dsim_scenario() {
-    int ctor = dsim::choose(4);       // 0 promise-taking fn, 1 future-returning fn (pending), 2 future-returning fn (already resolved), 3 default + get_promise()
+    int ctor = dsim::choose(5);       // ... 4: default-constructed, init_if_needed() called explicitly (public), then get_promise()       // 0 promise-taking fn, 1 future-returning fn (pending), 2 future-returning fn (already resolved), 3 default + get_promise()
     int rk = dsim::choose(3);
     int nu = 1 + dsim::choose(3);
     int uk[3]; for (int i = 0; i < nu; i++) uk[i] = dsim::choose(5);
@@ -54,7 +54,8 @@ void dsim_scenario() {
                     if (rk == 1) return cocls::future<vs::Counted>::set_exception(vs::make_err(9));
                     return cocls::future<vs::Counted>::set_not_value(); });
                 dsim::cell_set(RESOLVED, 1); break;
-        default: sf = std::make_unique<SF>(); prom = sf->get_promise(); break;     // usable promise from a default-constructed object
+        case 3: sf = std::make_unique<SF>(); prom = sf->get_promise(); break;     // usable promise from a default-constructed object
+        default: sf = std::make_unique<SF>(); sf->init_if_needed(); { SF early_copy = *sf; (void)early_copy; } prom = sf->get_promise(); break;
         }
         if (ctor != 2 && !prom && !res.joinable()) dsim::fail("C17.no_promise", "construction mode %d produced no usable promise", ctor);
         std::vector<std::thread> th;
